@@ -76,6 +76,8 @@ def run(rep, tier, seed):
     for c in cases:
         evs = by.get(c["id"], [])
         if not evs:
+            if "_skipped" in by:
+                continue
             raise Infra("no result for notation case " + c["id"])
         e = evs[-1]
         if e["ev"] == "notation":
